@@ -21,8 +21,8 @@ import (
 
 const (
 	frameDataMax = 1024
-	framePlain   = 4 + frameDataMax  // length prefix + data
-	frameSealed  = framePlain + 16   // + poly1305 tag
+	framePlain   = 4 + frameDataMax // length prefix + data
+	frameSealed  = framePlain + 16  // + poly1305 tag
 )
 
 // half is one direction of the pipe.
